@@ -31,8 +31,12 @@ Theorem C13_core_indicators_causal :
   causal (donchian_upper p) /\ causal (donchian_middle p) /\ causal (donchian_lower p) /\ causal (willr p) /\ causal (stoch_k p) /\
   causal typprice /\ causal medprice.
 Proof. exact core_indicators_causal. Qed.
+Theorem C13_mfi_keltner_causal :
+  forall (p : nat) (m : Qc), causal (mfi p) /\ causal (keltner_upper p m) /\ causal (keltner_middle p) /\ causal (keltner_lower p m).
+Proof. exact mfi_keltner_causal. Qed.
 
 Print Assumptions C13_state_machines_are_causal.
 Print Assumptions C13_causal_compose.
 Print Assumptions C13_causal_pointwise.
 Print Assumptions C13_core_indicators_causal.
+Print Assumptions C13_mfi_keltner_causal.
